@@ -425,6 +425,16 @@ theorem foldl_inv {cfg : Cfg} (h1 : 1 ≤ cfg.maxProvidersPerKey) (ops : List Op
 
 
 
+theorem lookupProv_setProvKey {k : Nat} {v ps : List Prov} : ∀ {l : List (Nat × List Prov)},
+    lookupProv k l = some ps → lookupProv k (setProvKey k v l) = some v
+  | [], h => by simp [lookupProv] at h
+  | (k', ps') :: rest, h => by
+    unfold lookupProv at h
+    unfold setProvKey
+    split at h
+    · rename_i hk; simp [hk, lookupProv]
+    · rename_i hk; simp only [hk, if_false, lookupProv]; exact lookupProv_setProvKey h
+
 theorem lowerBound_of_getElem {d : Nat} : ∀ {ps : List Prov} {i : Nat} {q : Prov}, Sorted ps →
     ps[i]? = some q → q.dist = d → lowerBound d ps = i
   | [], _, _, _, h, _ => by simp at h
